@@ -44,6 +44,7 @@ static pthread_mutex_t mu = PTHREAD_MUTEX_INITIALIZER;
 static int mut_count = 0, all_count = 0, sock_fd = -2, inited = 0;
 static const char *watch, *logf, *sockp, *ident;
 static int kill_at = 0, fail_at = 0, pipes = 0, gate_stdin = 0, disabled = 0;
+static int hold_ms = 0; /* VPSCHED_HOLD_MS: the call chosen by VPSCHED_KILL_AT is first held for that long (other threads go on), then the process is killed */
 static __thread int pending_fail = 0;
 static int take_fail(void) { if (pending_fail) { pending_fail = 0; errno = EIO; return 1; } return 0; }
 
@@ -63,6 +64,7 @@ static void init(void) {
   if (!ident) ident = "?";
   const char *k = getenv("VPSCHED_KILL_AT");
   if (k) kill_at = atoi(k);
+  { const char *h = getenv("VPSCHED_HOLD_MS"); if (h) hold_ms = atoi(h); }
   const char *fa = getenv("VPSCHED_FAIL_AT");
   if (fa) fail_at = atoi(fa);
   pipes = getenv("VPSCHED_PIPES") != NULL;
@@ -127,7 +129,10 @@ static int announce(int mutating, const char *call, const char *a0, const char *
     int fd = real_open64(logf, O_WRONLY | O_APPEND | O_CREAT, 0644);
     if (fd >= 0) { ssize_t r = real_write(fd, buf, n); (void)r; real_close(fd); }
   }
-  if (mutating && kill_at && n_mut == kill_at) { kill(getpid(), SIGKILL); for (;;) pause(); }
+  if (mutating && kill_at && n_mut == kill_at) {
+    if (hold_ms > 0) { pthread_mutex_unlock(&mu); usleep((useconds_t)hold_ms * 1000); }
+    kill(getpid(), SIGKILL); for (;;) pause();
+  }
   if (mutating && fail_at && n_mut == fail_at) pending_fail = 1;
   if (sockp) {
     if (sock_fd == -2) {
